@@ -437,6 +437,9 @@ def install():
     # force path-based rmtree so that "between two unlinks" is a crash point
     shutil._use_fd_functions = False
     _install_xarray()
+    from . import simexec
+
+    simexec.install_futures()
     try:
         import tqdm
 
